@@ -270,3 +270,28 @@ func TestReplayC01(t *testing.T) {
 		harness.Get("C01").Fail(t, c, "%s\nsource:\n%s", viol, c.Src)
 	}
 }
+
+// TestC01Sweeps enumerates the operand-value sub-space for expressions: for
+// every k in 0..300 the program gen.ExprSweepProg(k), whose variables sit in
+// slots k.. and whose literals have constant indices k.., is compared with
+// R1 (an operand byte then takes every value, also the values of opcodes).
+func TestC01Sweeps(t *testing.T) {
+	if !firstShard() || replayPath() != "" {
+		t.Skip("runs in the first shard only")
+	}
+	rec := harness.Get("C01")
+	rec.SetScope("sweeps")
+	n := 0
+	for k := 0; k <= 300; k++ {
+		p := gen.ExprSweepProg(k)
+		r := gen.RenderProg(p)
+		lay := gen.PlainLayout(r.Toks)
+		src, _ := renderChecked(r.Toks, lay)
+		n++
+		if viol := compareOutcome(ref.Run(p), interpret(src)); viol != "" {
+			rec.Fail(t, caseC01{Prog: p, Layout: lay, Src: src, Mode: "sweep"}, "expression sweep k=%d: %s\nsource (tail):\n%s", k, viol, tail(src, 500))
+		}
+	}
+	rec.Count("sweep:expression-operand-value-programs", n)
+	rec.SetExtra("exhaustive_subspace", "operand values 0..300 x unary chains, short circuits and comparisons on variables and fresh literals (gen.ExprSweepProg), each compared with R1")
+}
